@@ -145,6 +145,7 @@ func checkC01(p *Prog, res *Result, tier string) {
 	res.rule("C01-R7", "the index value carries the deletion flag exactly when the version record written with it is the deletion marker (also in the repair write, which re-plays either kind)", 4)
 	res.rule("C01-R8", "index and version records are written without an engine TTL, except by the classified Event create (C17-R5): a record that the engine removes by itself makes a later condition fail, or a create succeed, although no write intervened", 8)
 	res.rule("C01-R9", "a condition is reported as failed only for a failed condition: every package-level error variable is an error class of its own (none wraps another), so errors.Is(err, ErrCASFailed) on the write paths holds for failed compares only", 6)
+	res.rule("C01-R12", "a condition is reported failed only by the compare: the native write handlers answer a write (nil error) with the response the backend returned, never with one they built themselves", 3)
 	res.rule("C01-R11", "each successful update lands above the revision it named: the revision written was allocated without error - in particular without 'revision drift back' (C02-R7)", 4)
 	res.rule("C01-R10", "the reader of the index record tells 'deleted' from 'live' the way the writers encode it - by the length of the record (8 bytes: revision; 9: revision and flag), never by the content of a revision byte", 2)
 	res.rule("C01-R6", "every engine evaluates CAS / PutIfNotExist atomically with the write: compare-before-write, one engine commit, memkv lock held from BeginBatchWrite to Commit (C11-R1/R2); the metrics wrapper forwards conditional operations unchanged (C11-R5)", 12)
@@ -404,6 +405,7 @@ func checkC01(p *Prog, res *Result, tier string) {
 	// ---- R9: 'failed condition' is a class of its own ----
 	checkSentinelIdentity(p, res, "C01-R9")
 	checkIndexReaderAgrees(p, res, "C01-R10")
+	checkHandlersAnswerWithBackendResult(p, r, res, "C01-R12")
 	// the chain is in revision order only if an update lands above the revision it is conditioned on: the allocator's
 	// drift-back error must not be dropped on the way to the commit (C02-R7)
 	{
@@ -883,5 +885,68 @@ func checkIndexReaderAgrees(p *Prog, res *Result, rule string) {
 		} else {
 			res.bad(rule, construct, p.pos(ret.Pos()), why)
 		}
+	}
+}
+
+// checkHandlersAnswerWithBackendResult (C01-R12): "the condition failed" is something only the compare in the storage
+// batch can find out. A write handler of the server layer therefore answers a write (nil error) with the response the
+// backend returned for it - it does not make up a Succeeded=false answer from a look at the committed revision, which
+// lags behind what is stored while an older write is still in flight (an update that names the revision just written
+// would be refused although the key never differed from the expectation).
+func checkHandlersAnswerWithBackendResult(p *Prog, r *Roles, res *Result, rule string) {
+	writes := map[*types.Func]bool{r.BCreate: true, r.BUpdate: true, r.BDelete: true}
+	n := 0
+	for _, f := range p.AllFuncs {
+		if f.Pkg == nil || f.Blocks == nil || !strings.HasPrefix(f.Pkg.Pkg.Path(), modPath+"/pkg/server/brain") || f.Synthetic != "" {
+			continue
+		}
+		ei := errorResultIndex(f.Signature)
+		if ei != 1 || f.Signature.Results().Len() != 2 {
+			continue
+		}
+		var bcalls []*ssa.Call
+		for _, c := range callsIn(f) {
+			if cc, ok := c.(*ssa.Call); ok && c.Common().IsInvoke() && writes[c.Common().Method] {
+				bcalls = append(bcalls, cc)
+			}
+		}
+		if len(bcalls) == 0 {
+			continue
+		}
+		k := 0
+		for _, b := range f.Blocks {
+			ret, ok := b.Instrs[len(b.Instrs)-1].(*ssa.Return)
+			if !ok || b.Comment == "recover" {
+				continue
+			}
+			k++
+			n++
+			construct := fmt.Sprintf("%s: response of return #%d", funcName(f), k)
+			good := true
+			for _, v := range resolveAll(ret.Results[0]) {
+				if isNilConst(v) {
+					continue
+				}
+				fromBackend := false
+				if ex, ok := v.(*ssa.Extract); ok && ex.Index == 0 {
+					for _, bc := range bcalls {
+						if ex.Tuple == ssa.Value(bc) {
+							fromBackend = true
+						}
+					}
+				}
+				if !fromBackend {
+					good = false
+				}
+			}
+			if good {
+				res.ok(rule, construct, p.pos(ret.Pos()), "nil, or the response of the backend call")
+			} else {
+				res.bad(rule, construct, p.pos(ret.Pos()), "the handler answers a write without an error with a response it built itself instead of the backend's: a refusal that does not come from the compare in the storage batch (e.g. from a look at the committed revision, which lags behind what is stored while an older write is in flight) reports a failed condition for a key that never differed from the expectation")
+			}
+		}
+	}
+	if n == 0 {
+		res.und(rule, "native write handlers", "-", "no function of pkg/server/brain calls Backend.Create / Update / Delete")
 	}
 }
